@@ -6,7 +6,7 @@ ASMTECH = "TLC model checking (AsmRef / AsmSizing / M6809 gates) + TLC-exported 
 CLAIMED = {
  "C01": ("spec/M6809.tla codec (two datasheet transcriptions, inverse + round trip checked by TLC), spec/AsmRef.tla reference assembler model-checked against the certificate of spec/Asm.tla; TLC enumerates every mnemonic x operand form x boundary value x spelling, each is assembled by the real code and the recorded bytes/addresses are judged by TLC (bytes in Asm!Acceptable, decodes as one instruction of that mnemonic)",
          ASMTECH, "7 C01"),
- "C03": ("spec/AsmSizing.tla models the 8/16-bit sizing loop as a step function; TLC checks WidthSafe / NoLivelock / termination on all programs of <=3 (thorough <=4) items; every explored program is replayed and the hook events of the real loop are validated step by step against AsmSizing!Step; distance sweeps of all branch mnemonics and label,PCR forms are judged by the certificate (displacement reaches target, field wide enough, out-of-range short branch rejected); branches and label,PCR operands across a second ORG (recorded finding) ",
+ "C03": ("spec/AsmSizing.tla models the 8/16-bit sizing loop as a step function; TLC checks WidthSafe / NoLivelock / termination on all programs of <=3 (thorough <=4) items, and (MC_AsmSizingC) WidthSafe with label+-constant operands over the constants 0, +-4, +-126, +-200; every explored program is replayed and the hook events of the real loop are validated step by step against AsmSizing!Step; distance sweeps of all branch mnemonics and label,PCR forms are judged by the certificate (displacement reaches target, field wide enough, out-of-range short branch rejected); branches and label,PCR operands across a second ORG (recorded finding) ",
          ASMTECH + "; stateful trace validation of sizing-loop hook events (Tr_Sizing)", "7 C03"),
  "C12": ("M6809!Decode is a total decoder checked against the encoder by TLC; TLC enumerates the ill-typed forms (wrong mode / register / too-wide value) for every mnemonic row, which must be rejected; single-edit mutations and random operand strings are assembled and whatever is accepted is judged by TLC: decodes as exactly one instruction of that mnemonic, consuming all bytes, byte count = reserved space",
          ASMTECH, "7 C12"),
